@@ -141,12 +141,13 @@ class Prog:
         self.b.append(0xD0 | k)
 
 
-def gen_program(r: Rng, size=30, sp=None, allow_undefined=False, stdout_writes=True, read_unwritten=False):
+def gen_program(r: Rng, size=30, sp=None, allow_undefined=False, stdout_writes=True, read_unwritten=False, init_reads=False):
     """A structured random program: header (BR over the sp word), body, exit sequence.
     Memory traffic stays in a scratch region unless `allow_undefined`."""
     sp = sp if sp is not None else r.choice([1000, 5000, MEMW - 10, 300])
     scratch = 2000
     body = Prog()
+    reads = set()
 
     def block(depth, n):
         p = Prog()
@@ -155,11 +156,14 @@ def gen_program(r: Rng, size=30, sp=None, allow_undefined=False, stdout_writes=T
             if k < 3:
                 p.op(r.choice(["LDAC", "LDBC"]), r.choice([0, 1, 5, 15, 16, 255, 256, 4095, 65535, 65536, -1, -16, -17, -256, -65536, 0x7FFFFFFF, -0x80000000, r.word()]))
             elif k < 5:
-                p.op(r.choice(["LDAM", "LDBM", "STAM"]), scratch + r.below(64))
+                ad = scratch + r.below(64)
+                reads.add(ad)
+                p.op(r.choice(["LDAM", "LDBM", "STAM"]), ad)
             elif k == 5:
                 p.op("LDAP", r.choice([0, 1, -1, 100, -100, r.below(4096)]))
             elif k < 8:
                 base = scratch + r.below(32)
+                reads.add(base)
                 which = r.choice(["LDAI", "LDBI", "STAI"])
                 off = r.choice([0, 1, 2, 15, 16, 31, -1, -2])
                 if which == "LDAI":
@@ -211,7 +215,11 @@ def gen_program(r: Rng, size=30, sp=None, allow_undefined=False, stdout_writes=T
                 p.op("LDAC", r.below(100))
         return p
 
-    body.b += block(0, size).b
+    main = block(0, size).b
+    if init_reads:
+        for ad in sorted(reads):
+            body.op("LDAC", r.choice([0, 0, 1, 7, ad])); body.op("STAM", ad)
+    body.b += main
     # exit
     body.op("LDAC", r.choice([0, 1, 42, 255, 256, -1, r.word()])); body.op("LDBM", 1); body.op("STAI", 2)
     body.op("LDAC", 0); body.opr(3)
@@ -234,8 +242,8 @@ def image_file(code, debug=None):
     return out
 
 
-def run_case(r: Rng, tracing=0, max_cycles=0, fill=0, size=None, debug=False, trunc=None, allow_undefined=False, stdout_writes=True, read_unwritten=False):
-    code = gen_program(r, size if size is not None else 5 + r.below(40), allow_undefined=allow_undefined, stdout_writes=stdout_writes, read_unwritten=read_unwritten)
+def run_case(r: Rng, tracing=0, max_cycles=0, fill=0, size=None, debug=False, trunc=None, allow_undefined=False, stdout_writes=True, read_unwritten=False, init_reads=False):
+    code = gen_program(r, size if size is not None else 5 + r.below(40), allow_undefined=allow_undefined, stdout_writes=stdout_writes, read_unwritten=read_unwritten, init_reads=init_reads)
     dbg = None
     if debug:
         n = 1 + r.below(4)
